@@ -22,17 +22,17 @@ CHECKS = {
             "Trusted: walker reaches the entry points of the property; fixed thresholds (10 s, 3 GiB). No claim beyond the neighbourhoods.",
             "§5 C01"),
     "C14": ("fault_enumeration",
-            "exhaustive enumeration of single structural faults (every reference occurrence re-pointed at every object / undefined / beyond-size number; every integer occurrence set to 11 boundary values; every string emptied / halved / doubled; every value position replaced by a reference to a self-referencing object, a reference cycle, the containing object or an externalised copy), all pairs of re-wirings inside 9 structural fragments and about 900 special structures (xref /W product, offsets near 2^64, object-stream offset pairs, /Parent chains ending in errors, giant strings), each walked completely in a worker process under 4 configurations",
+            "exhaustive enumeration of single structural faults (every reference occurrence re-pointed at every object / undefined / beyond-size number; every integer occurrence set to 11 boundary values; every string emptied / halved / doubled; every value position replaced by a reference to a self-referencing object, a reference cycle, the containing object or an externalised copy), all pairs of re-wirings inside 9 structural fragments and about 1400 special structures (xref /W product, offsets near 2^64, object-stream offset pairs, /Parent chains ending in errors or 200000 long, page trees that are DAGs, predictor geometries over data cut inside a row, fax images with boundary widths, content streams whose operators each look ahead, giant strings), each walked completely in a worker process under 4 configurations",
             "The fault space over the base documents is enumerated completely (not sampled): cycles through every followed field, self-containing object streams, /Prev loops, nesting to 200000, boundary numbers in every numeric field incl. encryption, predictor, xref and function parameters. Workers make stack overflow, abort, allocation failure (3 GiB limit) and hangs (10 s) observable and attributable to one case.",
             "Trusted: the walker reaches the entry points named by the property; thresholds for 'out of proportion' are fixed (10 s / 3 GiB for ~10 KB files). Faults beyond two simultaneous re-wirings are not enumerated.",
             "§5 C14"),
     "C13": ("model_checking",
             "stateless model checking of real threads under a controlled (baton-passing) scheduler: every interleaving at the resolver's and the cache's synchronisation points up to a preemption bound (iterative context bounding), executed in worker processes, compared with sequential answers",
-            "2-3 real threads run 1-3 load calls each on one open document (shared resolver or one each; no caches or instrumented compute-once caches); every schedule with <=2 (quick) / <=3 (thorough) preemptions for 2 threads and <=1 / <=2 for 3 threads is executed; oracle: every answer equals the call run alone, no panic, no deadlock (no enabled thread while some are blocked), no process abort, resolver usable afterwards; failing schedules are replayed and must reproduce; replay divergence is a machinery error.",
-            "Trusted: scheduling points suffice because the only shared mutable state is the guard stack behind its mutex (under the feature a schedulable mutex with a point inside each critical section, so lock/try_lock contention is explored) and the caches; VerifCache is bound to globalcache's SyncCache::get by source hash and by sequential trace comparison (plus a non-deciding free-running run in thorough). once_cell in Lazy::load is not covered.",
+            "2-3 real threads run 1-3 load calls each (typed loads, page look-up, resolves of compressed objects of two object streams, mutually referring objects) on one open document (shared resolver or one each; no caches or instrumented compute-once caches); every schedule with <=2 (quick) / <=3 (thorough) preemptions for 2 threads and <=1 / <=2 for 3 threads is executed; oracle: every answer equals the call run alone, no panic, no deadlock (no enabled thread while some are blocked), no process abort, resolver usable afterwards; failing schedules are replayed and must reproduce; replay divergence is a machinery error.",
+            "Trusted: scheduling points suffice because the only shared mutable state is the guard stack behind its mutex (under the feature every mutex of the module is a schedulable one with a point before each lock and inside each critical section, so lock/try_lock contention and everything that may happen between two critical sections is explored) and the caches; VerifCache is bound to globalcache's SyncCache::get by source hash and by sequential trace comparison (plus a non-deciding free-running run in thorough). once_cell in Lazy::load is not covered.",
             "§5 C13"),
     "C12": ("model_checking",
-            "exhaustive enumeration of read-call sequences (all sequences up to length 3 over a 40-call alphabet, all permutations of the calls per object, all ordered pairs over a wide alphabet of every typed view and resolve on every object) x 5 cache configurations on real documents, plus complete cached-vs-uncached walks of the repository corpus, each answer compared with the same call alone on a fresh uncached document",
+            "exhaustive enumeration of read-call sequences (all sequences up to length 3 over a 40-call alphabet, all permutations of the calls per object, all ordered pairs over a wide alphabet of every typed view and resolve on every object) x 5 cache configurations, with strict and with tolerant options, on three generated documents (the third one a 70-deep /Parent chain with cyclic nodes and two objects that call themselves by the same number), plus complete cached-vs-uncached walks of the repository corpus, each answer compared with the same call alone on a fresh uncached document",
             "The answer to a call must not depend on history or cache configuration: every sequence of <=2 calls under five configurations (SyncCache both / object only / stream only / own map-backed caches / none), every sequence of 3 under two (thorough: all) configurations and every ordering of the distinct calls on one object are executed on the real library; digests are canonical (no HashMap order, no offsets).",
             "Trusted: digest functions. The call alphabets are fixed (typed loads as 8 types incl. mismatches and the generic Primitive / Dictionary / i32 views, stream data, image data before/after the codec, page look-ups); longer sequences are not enumerated.",
             "§5 C12"),
@@ -84,7 +84,7 @@ CHECKS = {
     "C02": ("model_checking",
             "exhaustive enumeration of update histories (all sequences of <=3 xref sections over <=3 object numbers, every entry state and section format, layout options: low object numbers, free-list head not restated, three styles of free entry) and of long chains (4..24 sections rewriting the same three objects x format patterns x xref-stream numbering x cached/uncached) generated as real files, loaded by the real reader and compared with a map-based reference model of 'newest mention wins'",
             "The history space (sections x format x per-object {absent, direct, compressed, free}) is a full product; every history, including every prefix length, is materialised by the independent assembler and every object number below /Size is resolved through the library and compared with the reference model; free/undefined numbers must give a free/missing error; trailer root/size/ID must be the newest section's.",
-            "Trusted: the assembler's well-formedness (compressed only at generation 0 in stream sections, a number freed for good is never re-used). Hybrid /XRefStm files are not generated. Beyond 3 sections only the long-chain patterns are covered.",
+            "Trusted: the assembler's well-formedness (compressed only in stream sections, a number freed for good is never re-used; a number freed before may return inside an object stream). Hybrid /XRefStm files are not generated. Beyond 3 sections only the long-chain patterns are covered.",
             "§5 C02"),
     "C04": ("model_checking",
             "exhaustive value sweeps (all 1-2 byte strings, every Unicode scalar as a name, all 2^32 integers and all finite f32 in thorough) x writer placements, each serialised by the real writer and read back by the real parser",
@@ -98,12 +98,12 @@ CHECKS = {
             "§5 C03"),
     "C05": ("model_checking",
             "exhaustive enumeration of filter kernels, short inputs x encoder variants, the full product of predictor geometries and filter chains, and all single-fault corruptions, executed on the real decoders against independent encoders",
-            "Kernels are enumerated completely (hex pairs, run-length headers, PNG filter pairs/triples, ASCII85 groups: all 2^32 in thorough), all byte strings up to length 2/3 go through 23 independent encoder variants, the full product of predictor geometry and of chains up to length 3 is explored by the bounded choice-tree search (also through Stream::data on generated files), and every truncation/single-byte substitution of encoded buffers must give Ok or Err.",
+            "Kernels are enumerated completely (hex pairs, hex digit / white-space layouts, run-length headers, PNG filter pairs/triples, ASCII85 groups: all 2^32 in thorough), all byte strings up to length 2/3 go through 23 independent encoder variants, the full product of predictor geometry and of chains up to length 3 is explored by the bounded choice-tree search (also through Stream::data on generated files), every geometry also over data that ends inside a row, and every truncation/single-byte substitution of encoded buffers must give Ok or Err.",
             "Trusted: harness encoders (self-tested). Longer data and geometries beyond Colors<=4, Columns<=5, 3 rows are not enumerated. DCT/CCITT/JBIG2/JPX outside the property.",
             "§5 C05"),
     "C16": ("model_checking",
             "exhaustive enumeration of all short byte strings x filters and parameter variants (bounded input-space model checking on the real encoder/decoder) with an independent reference decoder as oracle",
-            "All byte strings of length <=2 (quick) / <=3 (thorough) x 4 encodable filters are enumerated completely and run through the real encode/decode pair and an independent reference decoder; structured long buffers extend the bound. Exhaustive within the stated bound, no sampling in the deciding part.",
+            "All byte strings of length <=2 (quick) / <=3 (thorough) x 4 encodable filters are enumerated completely and run through the real encode/decode pair and an independent reference decoder; structured long buffers extend the bound; every round trip of 6 buffers x 8 filters is repeated on the same thread right after each of about 150 earlier calls (failed and successful decodes of every filter). Exhaustive within the stated bound, no sampling in the deciding part.",
             "Trusted: the harness's own reference decoders (validated by the self-test against spec examples); values beyond the enumerated lengths are covered only by the structured buffers.",
             "§5 C16"),
 }
